@@ -25,7 +25,7 @@ def run(tier):
     for fam in ("subif", "altor"):
         r = tlc.run_tlc("Assert", constants={"QFamily": fam, "QMaxW": 2}, workers=1, timeout=900)
         if not r.ok:
-            if "ssumption" in r.out:
+            if "ssumption" in r.out and "is false" in r.out:
                 vd.observe("model:assert:" + fam, {"output": r.out[-4000:]})
             else:
                 raise common.ToolError("TLC Assert failed\n" + r.out[-2000:])
